@@ -472,7 +472,9 @@ func (x *Exec) contractCall(st *State, pos ast.Node, spec *UnitSpec, sig *types.
 		}
 		x.hooks.runM(x, st, stTerm.S, coT.S)
 	}
-	x.applyModifies(st, spec, pre, binds)
+	if len(refines) == 0 || len(spec.clauses("modifies")) > 0 {
+		x.applyModifies(st, spec, pre, binds)
+	}
 	// results
 	var results []Term
 	for i := 0; i < sig.Results().Len(); i++ {
